@@ -15,7 +15,7 @@ CHECKS = {
    technique="guard-table discharge of bounds obligations over go/ssa with feasible-path facts, call-closure panic reachability, nil-test dominance",
    ref="DESIGN.md section 5 C15"),
  "C09": dict(
-   text="Structural necessary conditions for weight/ownership/root following content, decided on every path of insert, delete, getBlockProof and markToCollect: a collapsed position is resolved before it is interpreted as another kind or as empty; the weight change of the recursive descent is folded into the branch weight and returned; every store to a hashed field is accompanied by dirty=true; the weight-ordered descent enters a child only under block <= child weight and subtracts skipped weights. Further: the single-child scan of delete keeps its sentinels outside the slot range and its decision accepts exactly the slot numbers (DOM-sentinel).",
+   text="Structural necessary conditions for weight/ownership/root following content, decided on every path of insert, delete, getBlockProof and markToCollect: a collapsed position is resolved before it is interpreted as another kind or as empty; the weight change of the recursive descent is folded into the branch weight and returned; every store to a hashed field is accompanied by dirty=true; the weight-ordered descent enters a child only under block <= child weight and subtracts skipped weights. Further: the single-child scan of delete keeps its sentinels outside the slot range and its decision accepts exactly the slot numbers (DOM-sentinel). The subtree returned by every recursive insert/delete is linked back or returned (DEP-linkback); an update in place replaces bytes and weight together and its nothing-changed shortcut compares both (AGREE-update); error discipline (ERR-guard, ERR-dropped).",
    note="Does not decide the numeric equalities themselves (total weight, ownership interval, root equality with an independent computation).",
    technique="type-test exhaustiveness with an assumed-kind CFG walk, data-dependence and dominance checks on go/ssa",
    ref="DESIGN.md section 5 C09"),
@@ -25,7 +25,7 @@ CHECKS = {
    technique="ordering/dominance checks, range-guard facts, pre-image vs decision-input agreement on go/ssa",
    ref="DESIGN.md section 5 C10"),
  "C11": dict(
-   text="Structural necessary conditions for recoverability and safe garbage collection: every saved kind is put into the batch before a success return and after its dirty children; nothing reachable from Commit deletes from storage; DeleteNodes deletes only the `deleted` set and stages tempDeleted afterwards; the created-hash handler must purge every field that later feeds deletes; only saving/decoding entry points may clear the dirty flag. Known findings: tempDeleted is not purged; Root/GetBlockProof/GetPath clear dirty (witnesses recorded). Further: a previous hash is scheduled for collection only when it differs from the node's new hash (DOM-unchanged). Known finding REF-shared: nodes are stored and collected by content hash with no position component, so identical content under two keys is one stored node that a delete of either key collects.",
+   text="Structural necessary conditions for recoverability and safe garbage collection: every saved kind is put into the batch before a success return and after its dirty children; nothing reachable from Commit deletes from storage; DeleteNodes deletes only the `deleted` set and stages tempDeleted afterwards; the created-hash handler must purge every field that later feeds deletes; only saving/decoding entry points may clear the dirty flag. Known findings: tempDeleted is not purged; Root/GetBlockProof/GetPath clear dirty (witnesses recorded). Further: a previous hash is scheduled for collection only when it differs from the node's new hash (DOM-unchanged). Known finding REF-shared: nodes are stored and collected by content hash with no position component, so identical content under two keys is one stored node that a delete of either key collects. Error discipline of the weighted trie (ERR-guard, ERR-dropped); DOM-unchanged also covers the exported Commit (root).",
    note="Does not decide that a reopened trie is observationally identical; batches are the atomic unit by the property's quantifier.",
    technique="must-pass-through, call-graph effect confinement, provenance dataflow of deleted keys, field-set agreement on go/ssa",
    ref="DESIGN.md section 5 C11"),
@@ -40,17 +40,17 @@ CHECKS = {
    technique="sibling agreement (field-reset sets, guard conditions) on go/ssa",
    ref="DESIGN.md section 5 C13"),
  "C17": dict(
-   text="Error discipline and traversal structure behind missing-node detection and repair, decided on every path: at each of the trie's node lookups every error-path return yields a real error (never the benign 'not present' sentinel, never success); the branch arm of the traversal keeps visiting the remaining children, counts absent-node sentinels and reports under counter != 0; the sentinel set counted by the traversal equals the set the detector maps to 'missing'; nodes handed out by the donor store during repair are stored under their own hash without being modified. Further: every failed node access is recorded among the reported missing keys (DOM-record).",
+   text="Error discipline and traversal structure behind missing-node detection and repair, decided on every path: at each of the trie's node lookups every error-path return yields a real error (never the benign 'not present' sentinel, never success); the branch arm of the traversal keeps visiting the remaining children, counts absent-node sentinels and reports under counter != 0; the sentinel set counted by the traversal equals the set the detector maps to 'missing'; nodes handed out by the donor store during repair are stored under their own hash without being modified. Further: every failed node access is recorded among the reported missing keys (DOM-record). Node stores answer 'found' only where their lookup hit (DOM-nodefound); general error discipline over the package (ERR-guard, ERR-dropped).",
    note="Does not decide exactness of the reported key set for every removal subset. Path enumeration per function is capped at 4096 acyclic paths.",
    technique="error-path return classification with feasible-path facts, loop/counter structure check, sentinel-set agreement, provenance dataflow (FRESH) on go/ssa",
    ref="DESIGN.md section 5 C17"),
  "C14": dict(
-   text="Addressing and codec agreement decided structurally: at every store write site the key is the hash of the very node written (insertNode stamp-hash-put, UpdateChanges keys[i]=hash(nodes[i]), persistent store Encode() under the given key, memory/layered stores pass key and node unchanged); the type-code tables of writer and reader are inverse; origin tracker and node header are written and read in the same (byte order, field) sequence; per node type separators written = separators scanned, fields written and read in the same order, child keys hex on both sides, and separator-unsafe fields only after the last separator. Further: no trie operation edits a store-owned node object in place (FRESH-node), which would leave the memory store with an entry not addressed by its own hash.",
+   text="Addressing and codec agreement decided structurally: at every store write site the key is the hash of the very node written (insertNode stamp-hash-put, UpdateChanges keys[i]=hash(nodes[i]), persistent store Encode() under the given key, memory/layered stores pass key and node unchanged); the type-code tables of writer and reader are inverse; origin tracker and node header are written and read in the same (byte order, field) sequence; per node type separators written = separators scanned, fields written and read in the same order, child keys hex on both sides, and separator-unsafe fields only after the last separator. Further: no trie operation edits a store-owned node object in place (FRESH-node), which would leave the memory store with an entry not addressed by its own hash. The fields each node kind persists are exactly the fields its decoder restores and its structural copy copies (AGREE-fieldset).",
    note="Does not decide byte-exact round trip for every value. AGREE-fields reads the codec functions' syntax (typed AST) and accepts only constant-bound loops; other shapes are reported as undecided.",
    technique="writer/reader skeleton agreement over typed AST and go/ssa, key/index agreement at store write sites",
    ref="DESIGN.md section 5 C14"),
  "C01": dict(
-   text="Totality and pre-condition clauses of the map behaviour, decided on every path: each node-kind dispatch of lookup/insert/delete/iterate has an arm for every storable kind, no such arm is a panic and no panicking default is reachable with a nil node; Insert locks or mutates only after rejecting over-size values and routing nil/empty values to Delete; deleting at a value-less branch, under a mismatching leaf or below a nil child reports 'not present'; no extension node is ever built with an empty path (which would hide its subtree from lookups). Further: only a value-less branch is replaced by its only child (DOM-lift); a node the rebuilt trie still references is never handed to deleteNode (WHO-livedelete). The node codecs agree on separators and field order (AGREE-fields, see C14).",
+   text="Totality and pre-condition clauses of the map behaviour, decided on every path: each node-kind dispatch of lookup/insert/delete/iterate has an arm for every storable kind, no such arm is a panic and no panicking default is reachable with a nil node; Insert locks or mutates only after rejecting over-size values and routing nil/empty values to Delete; deleting at a value-less branch, under a mismatching leaf or below a nil child reports 'not present'; no extension node is ever built with an empty path (which would hide its subtree from lookups). Further: only a value-less branch is replaced by its only child (DOM-lift); a node the rebuilt trie still references is never handed to deleteNode (WHO-livedelete). The node codecs agree on separators and field order (AGREE-fields, see C14). Error discipline of the trie operations: the branch taken when a call failed returns a non-nil error, no error of a trie/store operation is dropped (ERR-guard, ERR-dropped).",
    note="Does not decide that lookups return the last stored value for every history (path arithmetic and slicing are value-level), nor hex validation of paths (outside the quantifier). The 'non-nil node when no error' fact about getNode is assumed (named results, not constants).",
    technique="type-dispatch exhaustiveness + nil-result summaries, path-sensitive guard facts, non-emptiness discharge table on go/ssa",
    ref="DESIGN.md section 5 C01"),
@@ -65,7 +65,7 @@ CHECKS = {
    technique="must-pass-through and strict-guard checks, provenance dataflow of deleted keys, writer/reader codec agreement on go/ssa",
    ref="DESIGN.md section 5 C05"),
  "C04": dict(
-   text="Structural necessary conditions of a complete, crash-safe save, decided on every path: the trie writes its store and feeds its change collector only in insertNode/deleteNode, every (re)created node is collected unless its hash is unchanged, each node is stored under its own hash; a save is exactly one MultiPutNode batch (keys[i] = hash of nodes[i] = copy of the change's New node) before any delete, deletes only under includeDeletes, arguments passed through unchanged; the persistent store reaches RocksDB only through one WriteBatch written once after the loop; plus FRESH-node (no in-place write to shared node bytes). Further: a still-referenced node is never deleted (WHO-livedelete); an unchanged re-write is not reported to the change collector (DOM-samekey).",
+   text="Structural necessary conditions of a complete, crash-safe save, decided on every path: the trie writes its store and feeds its change collector only in insertNode/deleteNode, every (re)created node is collected unless its hash is unchanged, each node is stored under its own hash; a save is exactly one MultiPutNode batch (keys[i] = hash of nodes[i] = copy of the change's New node) before any delete, deletes only under includeDeletes, arguments passed through unchanged; the persistent store reaches RocksDB only through one WriteBatch written once after the loop; plus FRESH-node (no in-place write to shared node bytes). Further: a still-referenced node is never deleted (WHO-livedelete); an unchanged re-write is not reported to the change collector (DOM-samekey). A change is recorded under the new node's hash with the new node on every path of AddChange except the cancel-out (DOM-recorded); error discipline over the node stores and the save path (ERR-guard, ERR-dropped).",
    note="Does not decide completeness of the change set for every history (rests on C01's map semantics) nor RocksDB's own atomicity (batches are the atomic unit by the property's quantifier). The RocksDB binding is analysed as a named API (it cannot be compiled here).",
    technique="who-may-call/effect confinement over the repo call graph, path-sensitive must-pass-through, index/key agreement on go/ssa",
    ref="DESIGN.md section 5 C04"),
@@ -75,32 +75,32 @@ CHECKS = {
    technique="call-site effect confinement, path-sensitive guard checks, interprocedural provenance dataflow (FRESH) on go/ssa",
    ref="DESIGN.md section 5 C03"),
  "C16": dict(
-   text="Race freedom of one state trie by guarded-by discipline, decided for every call path from the trie operations named in the property and the exported store/collector methods: root, deleteNodes, missing-key list, store maps, level links and collector maps only under their owner's mutex in the required mode (writes need the write lock; goroutine bodies start with nothing held); constructor-only fields never rewritten; Insert/Delete/MergeChanges/MergeDB are single critical sections (one write-lock acquisition dominating every root access, released by defer).",
+   text="Race freedom of one state trie by guarded-by discipline, decided for every call path from the trie operations named in the property and the exported store/collector methods: root, deleteNodes, missing-key list, store maps, level links and collector maps only under their owner's mutex in the required mode (writes need the write lock; goroutine bodies start with nothing held); constructor-only fields never rewritten; Insert/Delete/MergeChanges/MergeDB are single critical sections (one write-lock acquisition dominating every root access, released by defer). Every mutex acquisition is released on every path to a return, every release is preceded by its acquisition (PAIR-unlock).",
    note="Does not decide linearizability of histories (needs executions). SetVersion is outside the property's operation set and is not an entry. Locks are identified per (owner type, field). Trusted: go/ssa; own CHA call graph with function values resolved through parameters.",
    technique="interprocedural must-lockset analysis over go/ssa + repo call graph, guard table per field, dominance check of critical sections",
    ref="DESIGN.md section 5 C16"),
  "C20": dict(
-   text="Structural necessary conditions of the in-memory log ring, decided on every path from the logger API: cursor, slot values and ring traversals only under the core's mutex (of the same core value); no core is built with a by-value copy of another core's cursor (one cursor, one lock per ring); entry objects are never rewritten once stored; Write stores at the cursor and then advances by exactly one Next().",
+   text="Structural necessary conditions of the in-memory log ring, decided on every path from the logger API: cursor, slot values and ring traversals only under the core's mutex (of the same core value); no core is built with a by-value copy of another core's cursor (one cursor, one lock per ring); entry objects are never rewritten once stored; Write stores at the cursor and then advances by exactly one Next(). GetLogs stores what it visits into its result; only the root core writes the ring (SNAPSHOT-all, AGREE-share clauses); lock pairing (PAIR-unlock).",
    note="Does not decide 'exactly the most recent N, newest first' (index arithmetic in GetLogs) for every history. Trusted: go/ssa; container/ring and zap as named APIs; lock identity per (owner type, field) plus a same-receiver check inside each function.",
    technique="must-lockset analysis + constructor/aliasing audit + store-freshness and ordering checks on go/ssa",
    ref="DESIGN.md section 5 C20"),
  "C18": dict(
-   text="Checked-arithmetic discipline of core/currency decided on every feasible path: each integer + - * / %, each numeric conversion and the panicking decimal constructor is discharged by an accepted guard idiom (operand wrap check, subtrahend<=minuend, post-division check over a non-zero factor, non-zero divisor, sign/NaN/2^64 rejection before float->uint64, NaN/Inf rejection before NewFromFloat) or reported; plus an operator table of the named helpers. The package is small, loop-free and pure, so this covers nearly the whole 'never wraps, saturates or panics' clause. Further: float-taking helpers report success only after the argument tested a number and bounded from above, or by delegating a value computed from it (ARG-finite).",
+   text="Checked-arithmetic discipline of core/currency decided on every feasible path: each integer + - * / %, each numeric conversion and the panicking decimal constructor is discharged by an accepted guard idiom (operand wrap check, subtrahend<=minuend, post-division check over a non-zero factor, non-zero divisor, sign/NaN/2^64 rejection before float->uint64, NaN/Inf rejection before NewFromFloat) or reported; plus an operator table of the named helpers. The package is small, loop-free and pure, so this covers nearly the whole 'never wraps, saturates or panics' clause. Further: float-taking helpers report success only after the argument tested a number and bounded from above, or by delegating a value computed from it (ARG-finite). A float argument folded into a product tested not negative first (ARG-finite sign clause).",
    note="Does not decide the decimal-exponent logic of ParseZCN/ToZCN (library semantics) nor the format/parse round trip; exactness is decided only as 'result of the promised operator on the parameters, reached only when the guard excludes wrap-around'. An idiom outside the guard table is reported as undecided. Trusted: go/ssa; structural equality of guard atoms.",
    technique="guard-table discharge of arithmetic instructions over go/ssa with feasible-path facts",
    ref="DESIGN.md section 5 C18"),
  "C08": dict(
-   text="Race freedom by guarded-by discipline and commit/publication order, decided statically for every call path from the exported cache API: plain maps and rewritable fields only under their owner's mutex in the required mode (interprocedural must-lockset), sync/atomic counters never accessed plainly, constructor-only fields never rewritten; every commit-path write into the shared LRU maps under the state cache's lock; the block's ancestor link published after all of the block's keys. Further: the data handed out belongs to the entry whose tombstone flag was tested, also after the own-entry re-check (DOM-tombstone).",
+   text="Race freedom by guarded-by discipline and commit/publication order, decided statically for every call path from the exported cache API: plain maps and rewritable fields only under their owner's mutex in the required mode (interprocedural must-lockset), sync/atomic counters never accessed plainly, constructor-only fields never rewritten; every commit-path write into the shared LRU maps under the state cache's lock; the block's ancestor link published after all of the block's keys. Further: the data handed out belongs to the entry whose tombstone flag was tested, also after the own-entry re-check (DOM-tombstone). Every mutex acquisition is released on every path to a return, every release is preceded by its acquisition (PAIR-unlock).",
    note="Does not decide that every interleaving of the deliberately lock-free StateCache.Get with a commit returns the block-tree value (needs exploring interleavings). Locks are identified per (owner type, field), not per instance. Trusted: go/ssa, CHA call graph; the LRU library is internally synchronised.",
    technique="interprocedural must-lockset analysis over go/ssa + repo call graph, guard table per field, CFG reachability for publication order",
    ref="DESIGN.md section 5 C08"),
  "C06": dict(
-   text="Structural necessary conditions of correct cache answers, decided on every feasible CFG path: an existing per-key versions map is never replaced when (re)installing it; a handed-out entry is reached only with its tombstone tested false; each layer consults its own map before delegating (block layer continues at the previous block); the ancestor walk only follows the queried hash and stored links, memoises the found entry under the queried hash; entries are stored under the key/hash given and remove arms store deleted=true. Further: writes and removals are recorded in the layer's pending map on every path (DOM-writekept); the tombstone test and the data read concern the same entry (rewrite-sensitive DOM-tombstone). One known finding (CAP-absence): the per-key versions map is a recency-evicting LRU while the walk reads absence as 'not written' - stale hit after eviction, witness recorded.",
+   text="Structural necessary conditions of correct cache answers, decided on every feasible CFG path: an existing per-key versions map is never replaced when (re)installing it; a handed-out entry is reached only with its tombstone tested false; each layer consults its own map before delegating (block layer continues at the previous block); the ancestor walk only follows the queried hash and stored links, memoises the found entry under the queried hash; entries are stored under the key/hash given and remove arms store deleted=true. Further: writes and removals are recorded in the layer's pending map on every path (DOM-writekept); the tombstone test and the data read concern the same entry (rewrite-sensitive DOM-tombstone). One known finding (CAP-absence): the per-key versions map is a recency-evicting LRU while the walk reads absence as 'not written' - stale hit after eviction, witness recorded. The two results of every lookup agree (RET-pair); lookup results of the cache maps are asserted only where found (DOM-found).",
    note="Does not decide answers after LRU eviction nor equality with the block-tree oracle for every history (value-level). Trusted: go/ssa model; structural equality of tested atoms; third-party LRU as a named API.",
    technique="path-sensitive guard (must-pass-through) checks on go/ssa CFG, provenance dataflow for hash/key sources",
    ref="DESIGN.md section 5 C06"),
  "C07": dict(
-   text="Structural necessary conditions of cache isolation decided on every CFG path: every Value crossing a cache-map boundary (caller->map, map->caller, txn->block->state) has a Clone() result as its only provenance; setValue/commit are reachable only from the commit entry points; every Clone() implementation is a deep (codec) copy. Breaking any of these shares a mutable value or leaks an uncommitted write. Further: DOM-writekept (see C06): what a transaction commits, including tombstones, always reaches the block's pending map. Lookups never store into a pending map (WHO-readonly, see C06).",
+   text="Structural necessary conditions of cache isolation decided on every CFG path: every Value crossing a cache-map boundary (caller->map, map->caller, txn->block->state) has a Clone() result as its only provenance; setValue/commit are reachable only from the commit entry points; every Clone() implementation is a deep (codec) copy. Breaking any of these shares a mutable value or leaks an uncommitted write. Further: DOM-writekept (see C06): what a transaction commits, including tombstones, always reaches the block's pending map. Lookups never store into a pending map (WHO-readonly, see C06). commit stores the block's entries and publishes its link, returning early only when already committed (DOM-commit); stored entries keep their key/hash and tombstones (KEY-same).",
    note="Decides the copy-on-boundary, layering and deep-copy clauses only; 'after commit the values are what lookups return' is value-level and not decided. Trusted: go/types+go/ssa model of the source; CHA resolution of interface calls; third-party LRU treated as a named API.",
    technique="forward provenance dataflow on go/ssa (field-sensitive cells), repo call-graph who-may-call, Clone() implementation audit",
    ref="DESIGN.md section 5 C07"),
